@@ -299,6 +299,7 @@ ExecChecks(r, p, m, size, calc) ==
      <<~rb[r].on, "C05", "forward execution inside a rollback">>,
      <<Live(m) => msg[m].t >= LastEvT(p), "C01", "event executed after a later event of the same LP without rollback">>,
      <<Live(m) => ~\E am \in early[p] : Live(am) /\ SameRemote(m, am), "C06", "an event cancelled by an early remote anti-message was delivered">>,
+     <<Live(m) => ~\E am \in early[p] : Live(am) /\ SameRemote(m, am), "C02", "an event cancelled by an early remote anti-message was delivered">>,
      <<size = calc, "C11", "checkpoint size accounting differs from the allocator contents">> >>
 
 (* checkpoint_take (process.c:78) *)
@@ -505,7 +506,8 @@ EarlyMatch(r, p, m, am) ==
 EarlyMatchChecks(r, p, m, am) ==
   << <<am \in early[p], "C06", "matched an anti-message that was not parked at this LP">>,
      <<Live(m) /\ Live(am) /\ hand[r] = m, "C06", "early annihilation of buffers that are not live / not in hand">>,
-     <<(Live(m) /\ Live(am)) => SameRemote(m, am), "C06", "an event was annihilated by the anti-message of a different event">> >>
+     <<(Live(m) /\ Live(am)) => SameRemote(m, am), "C06", "an event was annihilated by the anti-message of a different event">>,
+     <<(Live(m) /\ Live(am)) => SameRemote(m, am), "C02", "an event was annihilated by the anti-message of a different event">> >>
 
 (* handle_remote_anti_msg: the cancelled event was processed: roll back to before it *)
 RAntiMatch(r, p, m, am, past) ==
@@ -515,6 +517,7 @@ RAntiMatch(r, p, m, am, past) ==
 RAntiMatchChecks(r, p, m, am, past) ==
   << <<Live(m) /\ Live(am) /\ hand[r] = am, "C06", "remote annihilation of buffers that are not live / not in hand">>,
      <<(Live(m) /\ Live(am)) => SameRemote(m, am), "C06", "an event was annihilated by the anti-message of a different event">>,
+     <<(Live(m) /\ Live(am)) => SameRemote(m, am), "C02", "an event was annihilated by the anti-message of a different event">>,
      <<\E i \in IdxOf(p, "e", m) : i > past, "C06", "the rollback for a remote anti-message does not undo the cancelled event">> >>
 
 FreeAtGvt(r, m) == UNCHANGED vars
